@@ -180,6 +180,15 @@ fn c08_valid_targets_are_executed() {
         (vec![0x36, 0x60, 0x01, 0x60, 0x03, 0x1b, 0x60, 0x06, 0x17, 0x60, 0x01, 0x01, 0x57, 0x00, 0x00, 0x5b, 0x60, 0x01, 0x50, 0x00], vec![13, 16, 18]),   // JUMPI to ((1 << 3) | 6) + 1 = 15
         (vec![0x60, 0xff, 0x19, 0x19, 0x60, 0xf0, 0x16, 0x60, 0x04, 0x1c, 0x56, 0x00, 0x00, 0x00, 0x00, 0x5b, 0x60, 0x01, 0x50, 0x00], vec![16, 18]),          // ((~~0xff) & 0xf0) >> 4 = 15
     ];
+    // targets computed from CODESIZE in code longer than the 24576 bytes a deployed contract may have (init code may be longer):
+    // PUSH1 0x20 CODESIZE SUB JUMP ... JUMPDEST at len - 0x20 ; with a look-alike JUMPDEST block at 24576 - 0x20
+    let mut progs = progs;
+    for len in [24640usize, 30000] {
+        let mut code = vec![0x60, 0x20, 0x38, 0x03, 0x56];
+        code.resize(len, 0x00);
+        for at in [24576 - 0x20, len - 0x20] { code[at] = 0x5b; code[at + 1] = 0x60; code[at + 2] = 0x01; code[at + 3] = 0x50; }
+        progs.push((code, vec![(len - 0x20 + 1) as u32, (len - 0x20 + 3) as u32]));
+    }
     let n = progs.len();
     for (code, must) in progs {
         let Ok(is) = InstructionStream::try_from(code.as_slice()) else { continue };
@@ -191,7 +200,7 @@ fn c08_valid_targets_are_executed() {
             // a JUMPDEST reached by JUMP is stepped over without being counted; everything else on the path is counted
             let seen = res.states.iter().any(|st| st.visited_instructions().visit_count(off).unwrap_or(0) > 0);
             if !seen && !(code[off as usize] == 0x5b && off as usize + 1 == code.len() && code.contains(&0x56)) {
-                for pid in ["C08", "C07"] { witness(pid, "ctl.legal_transfer_followed", format!("{code:02x?}"), format!("offset {off} never executed"), "both outcomes of the jump explored".into()); }
+                for pid in ["C08", "C07"] { witness(pid, "ctl.legal_transfer_followed", if code.len() > 200 { format!("code of {} bytes starting {:02x?}", code.len(), &code[..8]) } else { format!("{code:02x?}") }, format!("offset {off} never executed"), "both outcomes of the jump explored".into()); }
             }
         }
     }
